@@ -10,9 +10,9 @@ import (
 
 func init() {
 	register(&propInfo{
-		ID:     "C09",
-		Run:    runC09,
-		MinObl: 8,
+		ID:          "C09",
+		Run:         runC09,
+		MinObl:      8,
 		Explanation: "Decided: R1 caller authentication — in NewIntrospectionRequest the introspection of the inspected token and every Active:true response are reached only under (bearer ≠ \"\" ∧ bearer ≠ token ∧ IntrospectToken(bearer, access_token) == nil ∧ its use ∈ {\"\", access_token}) or (basic auth present ∧ GetClient(id from the header) == nil ∧ the secret comparison of that client's current or a rotated hash with the header secret returned nil), and Active:true additionally requires the inspected token's introspection error to be nil; R2 both storage-backed introspector paths merge the stored request only after a successful lookup, token validation (C06.R1) and, for every iterated non-empty required scope, the configured scope strategy accepting it against the stored granted scopes; the returned token use is the kind that was looked up; R3 with refresh-token validation disabled the refresh path is never taken and refresh_token is never returned; R4 writer: for an inactive response only a one-field {active:false} object is encoded and the requester is not read; every key the writer fills from the requester is excluded from the extra-claims copy, and each key is filled from the accessor it is named for. NOT decided: truthfulness over all reachable store states (needs a reference model); extra claims may still set 'active' (observed, operator-controlled data).",
 	})
 }
